@@ -1,7 +1,7 @@
 (* Teardown (C09): the clauses of the property, for every reachable state of every family. *)
 From Coq Require Import Bool List PArith NArith.
 From Sctp Require Import Gen Teardown TeardownProofs TeardownHsProofs TeardownEstProofs TeardownSdProofs
-  TeardownClose2Proofs TeardownT1Proofs.
+  TeardownClose2Proofs TeardownT1Proofs TeardownDlProofs.
 Import ListNotations.
 
 Lemma td_in_families : forall c, In c td_families -> td_check_family c = true.
@@ -19,14 +19,20 @@ Proof. intros c H. exact (td_forallb_family _ _ c td_families_ok_close2 H). Qed.
 Lemma td_in_families_t1 : forall c, In c td_families_t1 -> td_check_family c = true.
 Proof. intros c H. exact (td_forallb_family _ _ c td_families_t1_ok H). Qed.
 
-(* all families: 45 (phase x injection x caller), 7 with a further Close(), 5 with T1 exhaustion *)
-Definition td_all_families : list td_cfg := td_families ++ td_families_close2 ++ td_families_t1.
+Lemma td_in_families_deadline : forall c, In c td_families_deadline -> td_check_family c = true.
+Proof. intros c H. exact (td_forallb_family _ _ c td_families_ok_deadline H). Qed.
+
+(* all families: 45 (phase x injection x caller), 6 with a further Close(), 5 with T1 exhaustion, 5 with an
+   armed read deadline *)
+Definition td_all_families : list td_cfg :=
+  td_families ++ td_families_close2 ++ td_families_t1 ++ td_families_deadline.
 
 Lemma td_in_all_families : forall c, In c td_all_families -> td_check_family c = true.
 Proof.
   intros c Hc. unfold td_all_families in Hc. apply in_app_or in Hc. destruct Hc as [Hc | Hc].
   - exact (td_in_families c Hc).
-  - apply in_app_or in Hc. destruct Hc as [Hc | Hc]; [exact (td_in_families_close2 c Hc) | exact (td_in_families_t1 c Hc)].
+  - apply in_app_or in Hc. destruct Hc as [Hc | Hc]; [exact (td_in_families_close2 c Hc)|].
+    apply in_app_or in Hc. destruct Hc as [Hc | Hc]; [exact (td_in_families_t1 c Hc) | exact (td_in_families_deadline c Hc)].
 Qed.
 
 Lemma td_safe_everywhere : forall c s, In c td_all_families -> td_reach c s ->
@@ -64,7 +70,7 @@ Lemma td_done_spec : forall s, td_done s = true ->
   td_rd s <> TdRdParked /\ td_rd s <> TdRdCheck /\ td_wr s <> TdWrBlocked /\
   td_wr s <> TdWrWoken /\ td_ac s <> TdAcWait /\ td_sh s <> TdShWait /\ td_sh s <> TdShWoken /\
   (td_c1 s = TdCcNone \/ td_c1 s = TdCcRet) /\ (td_c2 s = TdCcNone \/ td_c2 s = TdCcRet) /\
-  (td_ab s = TdAbNone \/ td_ab s = TdAbRet).
+  (td_ab s = TdAbNone \/ td_ab s = TdAbRet) /\ td_dl s <> TdDlArmed.
 Proof.
   intros s H. unfold td_done in H. repeat (apply andb_true_iff in H; destruct H as [H ?]).
   split; [destruct (td_rl s); try discriminate; reflexivity|].
@@ -80,7 +86,8 @@ Proof.
   split; [intro E; rewrite E in *; discriminate|].
   split; [destruct (td_c1 s); try discriminate; auto|].
   split; [destruct (td_c2 s); try discriminate; auto|].
-  destruct (td_ab s); try discriminate; auto.
+  split; [destruct (td_ab s); try discriminate; auto|].
+  intro E; rewrite E in *; discriminate.
 Qed.
 
 (* (b) at most one conn.Write is attempted after this side closed the conn ... *)
@@ -195,7 +202,7 @@ Proof.
   assert (Hr : td_reach td_cfg_t1_abort s) by exact (td_follow_reach _ _ _ Hf).
   exists s. repeat split; try assumption.
   apply td_progress; [|exact Hr]. unfold td_all_families. apply in_or_app. right. apply in_or_app. right.
-  right. left. reflexivity.
+  apply in_or_app. left. right. left. reflexivity.
 Qed.
 
 (* the outcome sets the comparator reads from the model cover every reachable maximal run end *)
@@ -244,4 +251,18 @@ Lemma td_example_close_run :
 Proof.
   cbv zeta. split; [unfold td_families, td_families_of, td_phases, td_injs, td_mixes; cbn; tauto|].
   destruct td_example_follow as [s [F H]]. exists s. split; [exact (td_follow_reach _ _ _ F) | exact H].
+Qed.
+
+(* the goroutine of an armed read deadline has ended at every maximal run end *)
+Lemma td_deadline_goroutine_ends : forall c s, In c td_families_deadline -> td_reach c s ->
+  td_steps c s = [] -> td_dl s = TdDlDone.
+Proof.
+  intros c s Hc Hr Hnil.
+  assert (Ha : In c td_all_families).
+  { unfold td_all_families. apply in_or_app. right. apply in_or_app. right. apply in_or_app. right. exact Hc. }
+  pose proof (td_all_terminate c s Ha Hr Hnil) as Hd.
+  pose proof (td_forallb_family _ _ c td_families_deadline_present Hc) as Hp. cbv beta in Hp.
+  pose proof (td_check_family_safe_sound c _ Hp s Hr) as Hpres. unfold td_dl_present in Hpres.
+  destruct (td_done_spec s Hd) as [_ [_ [_ [_ [_ [_ [_ [_ [_ [_ [_ [_ [_ [_ [_ [_ Hn]]]]]]]]]]]]]]]].
+  destruct (td_dl s); [discriminate Hpres | contradiction | reflexivity].
 Qed.
